@@ -3,7 +3,8 @@
    from gen/GenBound.v (regenerated from /repo); the readers come from spec/Header.v. *)
 From Coq Require Import NArith ZArith List Bool.
 From V Require Import lib.Words gen.GenBound spec.Header model.Bound proofs.Bound_proofs proofs.Bound_multi.
-From V Require model.Concat spec.ConcatSpec.
+From V Require model.Concat spec.ConcatSpec proofs.Concat_length.
+From V Require Import proofs.Bound_stitch.
 Import ListNotations.
 Open Scope N_scope.
 
@@ -138,22 +139,51 @@ Theorem C08_multi_partial : forall (cs : list scfg) (ns : list N) (scheds : list
 Proof. exact multi_given_concat. Qed.
 Print Assumptions C08_multi_partial.
 
-(* NOT PROVED (kept as a statement): the same without the hypothesis on the concatenator, stated
-   against the bit-level specification of the concatenator (spec/ConcatSpec.concat_spec, which the
-   real concatenator is proved to follow for every slicing: C03_bits_any_slicing): the worker
-   streams are byte strings of the accounted lengths and the stitched stream is what the
-   specification makes of them.  Missing: the length consequence of concat_spec for catable parts
-   (15 bits saved per seam), and that CompressMulti configures its workers without magic header
-   (the real multi-threaded output is checked against the bound on every run). *)
-Definition C08_multi_stmt : Prop :=
-  forall (cs : list scfg) (ns : list N) (scheds : list (list mblock * bool)) (members : list (list N)) expected,
-  length cs = length ns -> length scheds = length ns -> length members = length ns ->
+(* The concatenator's saving, proved from its bit-level specification (spec/ConcatSpec.concat_spec,
+   which the real concatenator follows for every slicing: C03_bits_any_slicing): stitching a first
+   stream of at least 5 bytes and any number of parts of the workers' shape (14-bit window field,
+   20-bit header of the stored catable block) saves at least 15 bits per seam. *)
+Theorem C08_concat_saving : forall m0 rest expected,
+  (5 <= length m0)%nat -> Forall Concat_length.catable_part rest ->
+  ConcatSpec.concat_spec None (m0 :: rest) = Some expected ->
+  (8 * length expected + 15 * length rest <= 8 * Concat_length.sum_length (m0 :: rest) + 7)%nat.
+Proof. exact Concat_length.concat_len_catable. Qed.
+Print Assumptions C08_concat_saving.
+
+(* The multi-threaded bound: any split of the input into up to 22 parts (MAX_THREADS is 16), each
+   compressed by its own worker under any meta-block schedule into a byte string of the accounted
+   length, stitched as the concatenator's specification prescribes: the result fits
+   BrotliEncoderMaxCompressedSizeMulti.  Visible hypotheses on the worker streams, NOT proved of
+   CompressMulti (they are facts about the bytes the real workers write; the real multi-threaded
+   output is checked against the bound on every run): no magic header, and every part after the
+   first begins with the 14-bit window field and the 20-bit stored header (catable_part). *)
+Theorem C08_multi : forall (cs : list scfg) (ns : list N) (scheds : list (list mblock * bool)) m0 rest expected,
+  length cs = length ns -> length scheds = length ns -> length (m0 :: rest) = length ns ->
   (forall i c n bs fe m, nth_error cs i = Some c -> nth_error ns i = Some n ->
-     nth_error scheds i = Some (bs, fe) -> nth_error members i = Some m ->
+     nth_error scheds i = Some (bs, fe) -> nth_error (m0 :: rest) i = Some m ->
      scfg_ok c = true /\ s_magic c = false /\ schedule_ok c n bs fe = true
      /\ stream_bytes c n bs fe = Some (Concat.lenN m)) ->
-  0 < sumN ns -> sumN ns < 2 ^ 62 -> N.of_nat (length ns) <= 16 ->
-  ConcatSpec.concat_spec None members = Some expected ->
+  0 < sumN ns -> sumN ns < 2 ^ 62 -> N.of_nat (length ns) <= 22 ->
+  (5 <= length m0)%nat -> Forall Concat_length.catable_part rest ->
+  ConcatSpec.concat_spec None (m0 :: rest) = Some expected ->
+  exists B, max_compressed_size_multi (sumN ns) (N.of_nat (length ns)) = Ok B /\ Concat.lenN expected <= B.
+Proof. exact multi_stitched. Qed.
+Print Assumptions C08_multi.
+
+(* NOT PROVED (kept as a statement): the same for any number of parts.  With the byte-level
+   accounting above (11 bytes of allowance per part against 8 bytes per thread in the Multi bound
+   plus 15 bits saved per seam) the margin is exhausted at 23 parts; a bit-level accounting of the
+   final empty meta-block would be needed beyond. *)
+Definition C08_multi_stmt : Prop :=
+  forall (cs : list scfg) (ns : list N) (scheds : list (list mblock * bool)) m0 rest expected,
+  length cs = length ns -> length scheds = length ns -> length (m0 :: rest) = length ns ->
+  (forall i c n bs fe m, nth_error cs i = Some c -> nth_error ns i = Some n ->
+     nth_error scheds i = Some (bs, fe) -> nth_error (m0 :: rest) i = Some m ->
+     scfg_ok c = true /\ s_magic c = false /\ schedule_ok c n bs fe = true
+     /\ stream_bytes c n bs fe = Some (Concat.lenN m)) ->
+  0 < sumN ns -> sumN ns < 2 ^ 62 -> N.of_nat (length ns) < 2 ^ 32 ->
+  (5 <= length m0)%nat -> Forall Concat_length.catable_part rest ->
+  ConcatSpec.concat_spec None (m0 :: rest) = Some expected ->
   exists B, max_compressed_size_multi (sumN ns) (N.of_nat (length ns)) = Ok B /\ Concat.lenN expected <= B.
 
 (* Non-vacuity: concrete points of every theorem's domain. *)
